@@ -28,6 +28,10 @@ CLAIMS = {
   text="Lean 4 theorems (DDV.Props.C10): write/read/flush pass-through; write_all and read_exact are proved to satisfy inductive contract relations (calls on exactly the unwritten/unfilled remainder, stop at first error, panic on Ok(0) resp. UnexpectedEof, slice-index panic on over-long counts) for every slice and every sequence of interface answers, by induction with an explicit fuel argument shown to be irrelevant; async twins and trait impls are proved equal to the inherent blocking ones under every suspension pattern. Differential correspondence against the real BufferOperation through inherent, embedded-io and embedded-io-async entry points.",
   note="As C05. Method resolution (inherent over trait) inside the trait impls is rustc's and is validated by execution; the provided write_all/read_exact of the embedded-io crates are exercised, not modelled separately.",
   technique="Lean 4 proof (inductive contract relations, poll-machine refinement) + differential correspondence", ref="3.10"),
+ "C11": dict(
+  text="Lean 4 theorem layout_accept_iff (DDV.Props.C11): for every device tree, the composition of the three layout passes (byte_order_specified, bool_fields_checked, bit_ranges_validated, modelled callback by callback over the pre-order traversal) succeeds if and only if every register and command at any depth satisfies the property's own notion of a well-formed layout (non-empty in-size ranges, one-bit conversion-free bools, pairwise disjoint unless overlap is allowed, byte order known above 8 bits); plus: a rejection is always a reported error (never a panic) and carries the object's name. Proved by mutual structural induction over the nested object tree. The model is tied to /repo by running rendered definitions (DSL/JSON/YAML/TOML) through the real generator and comparing outcome, error kind, named entities and all extracted facts with the model; an independent oracle written from the property text checks the implementation's accept/reject decision.",
+  note="Lean kernel; axioms propext/Classical.choice/Quot.sound. Hand-written model of the passes validated by differential runs; convert_case opaque; concrete parsers exercised not modelled; facts extractor and error classifier (harness/src/gen) trusted.",
+  technique="Lean 4 proof (iff between pass success and a declarative spec, induction over the object tree) + differential correspondence + independent oracle", ref="3.11"),
 }
 
 NOT_YET = {
